@@ -1,5 +1,6 @@
 mod cachew;
 mod gen;
+mod sketchdrv;
 mod types;
 
 use cachew::*;
@@ -9,6 +10,10 @@ use std::panic::{catch_unwind, AssertUnwindSafe};
 use std::sync::Mutex;
 
 static LAST_PANIC: Mutex<String> = Mutex::new(String::new());
+
+pub fn last_panic() -> String {
+    LAST_PANIC.lock().unwrap_or_else(|e| e.into_inner()).clone()
+}
 
 fn install_panic_hook() {
     std::panic::set_hook(Box::new(|info| {
@@ -29,7 +34,7 @@ fn install_panic_hook() {
 
 /// `exp` is matched structurally: every field present in `exp` must be present and
 /// equal in `obs` (recursively); `obs` may carry more.
-fn subset_match(exp: &Value, obs: &Value, path: &str) -> Result<(), String> {
+pub fn subset_match(exp: &Value, obs: &Value, path: &str) -> Result<(), String> {
     match (exp, obs) {
         (Value::Object(e), Value::Object(o)) => {
             for (k, ev) in e {
@@ -249,6 +254,7 @@ fn main() {
     match args[1].as_str() {
         "replay" => cmd_replay(&args[2..]),
         "gen" => gen::cmd_gen(&args[2..]),
+        "sketch" => sketchdrv::cmd_sketch(&args[2..]),
         other => {
             eprintln!("unknown command {}", other);
             std::process::exit(2);
